@@ -23,19 +23,20 @@ import (
 // ------------------------------------------------------------------------------------ descriptions
 
 type Op struct {
-	K     string `json:"k"`
-	H     int    `json:"h,omitempty"`
-	A     string `json:"a,omitempty"` // address, decimal
-	PL    int    `json:"pl,omitempty"`
-	Ep    uint64 `json:"ep,omitempty"`
-	Mac   bool   `json:"mac,omitempty"`
-	Fail  bool   `json:"fail,omitempty"`
-	FailG bool   `json:"failg,omitempty"`
-	Down  bool   `json:"down,omitempty"` // with fail: the store is unreachable for the whole call (every store call of it fails), not only the first write
-	Dup   bool   `json:"dup,omitempty"`  // echo: the notification stays queued (it will be delivered again)
-	VH    int    `json:"vh,omitempty"`   // rputx: holder named INSIDE the value (the key names H)
-	Ord   []int  `json:"ord,omitempty"`
-	Idx   int    `json:"idx,omitempty"` // echo: which pending notification
+	K       string `json:"k"`
+	H       int    `json:"h,omitempty"`
+	A       string `json:"a,omitempty"` // address, decimal
+	PL      int    `json:"pl,omitempty"`
+	Ep      uint64 `json:"ep,omitempty"`
+	Mac     bool   `json:"mac,omitempty"`
+	Fail    bool   `json:"fail,omitempty"`
+	FailG   bool   `json:"failg,omitempty"`
+	Down    bool   `json:"down,omitempty"`    // with fail: the store is unreachable for the whole call (every store call of it fails), not only the first write
+	CtxDone int    `json:"ctxdone,omitempty"` // with a failing store call: 1 = the request context is cancelled INSIDE the failing store call (the write fails because the request timed out), 2 = it is already cancelled on entry. The unchanged code never looks at the request context (the harness Store and the in-memory allocators ignore it), so the Model has no such input
+	Dup     bool   `json:"dup,omitempty"`     // echo: the notification stays queued (it will be delivered again)
+	VH      int    `json:"vh,omitempty"`      // rputx: holder named INSIDE the value (the key names H)
+	Ord     []int  `json:"ord,omitempty"`
+	Idx     int    `json:"idx,omitempty"` // echo: which pending notification
 	// store stream
 	Pool int `json:"pool,omitempty"`
 	Bits int `json:"bits,omitempty"`
@@ -139,7 +140,8 @@ type hstore struct {
 	failPut bool
 	failDel bool
 	failGet bool
-	down    bool // every call fails until cleared
+	down    bool               // every call fails until cleared
+	cancel  context.CancelFunc // cancels the request context of the running op inside a failing store call
 	cb      func(key string, value []byte, deleted bool)
 	pending []note
 	puts    int
@@ -149,10 +151,17 @@ type hstore struct {
 
 var errInjected = errors.New("injected store failure")
 
+func (s *hstore) cancelReq() {
+	if s.cancel != nil {
+		s.cancel()
+	}
+}
+
 func (s *hstore) Get(ctx context.Context, key string) ([]byte, error) {
 	if s.failGet || s.down {
 		s.failGet = false
 		s.gets++
+		s.cancelReq()
 		return nil, errInjected
 	}
 	if v, ok := s.data[key]; ok {
@@ -164,6 +173,7 @@ func (s *hstore) Put(ctx context.Context, key string, value []byte) error {
 	s.puts++
 	if s.failPut || s.down {
 		s.failPut = false
+		s.cancelReq()
 		return errInjected
 	}
 	s.data[key] = append([]byte(nil), value...)
@@ -174,6 +184,7 @@ func (s *hstore) Delete(ctx context.Context, key string) error {
 	s.dels++
 	if s.failDel || s.down {
 		s.failDel = false
+		s.cancelReq()
 		return errInjected
 	}
 	delete(s.data, key)
@@ -402,6 +413,21 @@ func (d *distRun) remotePut(h int, r recT) {
 	d.emit(fmt.Sprintf("WRemotePut %s %s %s %d %d", vh.Str(key), vh.Str(r.sid), r.a.String(), r.pl, r.ep), "ROk")
 }
 
+// request context of a faulted op (oracle bit CtxDone); the returned func ends the op
+func (d *distRun) reqCtx(o Op) (context.Context, func()) {
+	if o.CtxDone == 0 || !(o.Fail || o.FailG) {
+		return context.Background(), func() {}
+	}
+	ctx, cancel := context.WithCancel(context.Background())
+	d.tags[fmt.Sprintf("fail:ctx-done-%d", o.CtxDone)] = true
+	if o.CtxDone == 2 {
+		cancel()
+	} else {
+		d.st.cancel = cancel
+	}
+	return ctx, func() { d.st.cancel = nil; cancel() }
+}
+
 func (d *distRun) clearFlags() {
 	d.st.failPut, d.st.failDel, d.st.failGet, d.st.down = false, false, false, false
 }
@@ -413,7 +439,6 @@ func runDist(c Case) vh.Case {
 		panic(err)
 	}
 	defer func() { d.stop() }()
-	bctx := context.Background()
 	for _, o := range c.Ops {
 		d.tags["op:"+o.K] = true
 		switch o.K {
@@ -424,11 +449,13 @@ func runDist(c Case) vh.Case {
 			}
 			var p *net.IPNet
 			var err error
+			rctx, end := d.reqCtx(o)
 			if o.Mac {
-				p, err = d.da.AllocateWithMAC(bctx, c.name(o.H), net.HardwareAddr{2, 0, 0, 0, 0, byte(o.H)})
+				p, err = d.da.AllocateWithMAC(rctx, c.name(o.H), net.HardwareAddr{2, 0, 0, 0, 0, byte(o.H)})
 			} else {
-				p, err = d.da.Allocate(bctx, c.name(o.H))
+				p, err = d.da.Allocate(rctx, c.name(o.H))
 			}
+			end()
 			used := o.Fail && !d.st.failPut
 			d.clearFlags()
 			ret := ""
@@ -444,7 +471,9 @@ func runDist(c Case) vh.Case {
 			d.flushSync()
 		case "rel":
 			d.st.failDel, d.st.down = o.Fail, o.Fail && o.Down
-			err := d.da.Release(bctx, c.name(o.H))
+			rctx, end := d.reqCtx(o)
+			err := d.da.Release(rctx, c.name(o.H))
+			end()
 			if o.Fail && !d.st.failDel {
 				d.tags["fail:del"] = true
 			}
@@ -457,7 +486,9 @@ func runDist(c Case) vh.Case {
 			d.flushSync()
 		case "renew":
 			d.st.failGet, d.st.failPut, d.st.down = o.FailG, o.Fail, o.FailG && o.Fail && o.Down
-			err := d.da.Renew(bctx, c.name(o.H))
+			rctx, end := d.reqCtx(o)
+			err := d.da.Renew(rctx, c.name(o.H))
+			end()
 			d.clearFlags()
 			ret := "ROk"
 			if err != nil {
